@@ -552,6 +552,7 @@ impl Report {
             .set("property", self.property.clone())
             .set("evaluations", self.evaluations)
             .set("distinct_nontrivial", self.distinct.len())
+            .set("distinct_keys_first", Json::Arr(self.distinct.iter().take(120).map(|s| Json::Str(s.clone())).collect()))
             .set("rule", self.rule.clone())
             .set("samples", Json::Arr(self.samples.clone()))
             .set("stages", stages)
